@@ -1585,8 +1585,9 @@ Definition sheets_len (shs : list sheet_spec) : N := len (flat_map sheet_stream 
 Lemma wb_globals_bof : forall c rest sh st,
   wb_globals (Ok (2057, bof_body 5, c) :: rest) sh st = wb_globals rest sh st.
 Proof. reflexivity. Qed.
-Lemma wb_globals_codepage : forall c rest sh st,
-  wb_globals (Ok (66, le16 1200, c) :: rest) sh st = wb_globals rest sh st.
+(* the CodePage arm under the BIFF8 BOF: any value of the record is without effect *)
+Lemma wb_globals_codepage : forall v c rest sh st,
+  wb_globals (Ok (66, le16 v, c) :: rest) sh st = wb_globals rest sh st.
 Proof. reflexivity. Qed.
 Lemma wb_globals_bsheet : forall d c rest sh st,
   wb_globals (Ok (133, d, c) :: rest) sh st =
@@ -1678,8 +1679,8 @@ Proof.
   rewrite (IH (p + len (sheet_stream sh)) (q + len (sheet_stream sh))).
   f_equal.
 Qed.
-Lemma len_globals_indep : forall p q strs lay shs,
-  len (globals_stream p strs lay shs) = len (globals_stream q strs lay shs).
+Lemma len_globals_indep : forall cp p q strs lay shs,
+  len (globals_stream cp p strs lay shs) = len (globals_stream cp q strs lay shs).
 Proof.
   intros. unfold globals_stream. rewrite !len_app. rewrite (len_boundsheets_indep shs p q).
   reflexivity.
@@ -1695,25 +1696,26 @@ Proof. destruct cs; reflexivity. Qed.
 (* C12 through the whole (reduced) parse_workbook: sheet names and every text cell — LABELSST
    cells resolved through the shared-string table read across its CONTINUE records, LABEL cells,
    formula STRING values — are what the writer stored *)
-Theorem wb_strings_ok : forall strs lay shs,
-  legal_workbook strs lay shs = true ->
-  wb_strings (workbook_stream strs lay shs) = Ok (wb_spec strs shs).
+Theorem wb_strings_ok : forall cp strs lay shs,
+  legal_workbook cp strs lay shs = true ->
+  wb_strings (workbook_stream cp strs lay shs) = Ok (wb_spec strs shs).
 Proof.
-  intros strs lay shs Hl. unfold legal_workbook in Hl.
+  intros cp strs lay shs Hl. unfold legal_workbook in Hl.
+  apply andb_true_iff in Hl. destruct Hl as [Hl Hcp].
   apply andb_true_iff in Hl. destruct Hl as [Hl Htot].
   apply andb_true_iff in Hl. destruct Hl as [Hl Hshs].
   apply andb_true_iff in Hl. destruct Hl as [Hl Hconts].
   apply andb_true_iff in Hl. destruct Hl as [Hlay Hdata].
   unfold workbook_stream in *.
-  set (g0 := len (globals_stream 0 strs lay shs)) in *.
-  assert (Hg0 : len (globals_stream g0 strs lay shs) = g0)
+  set (g0 := len (globals_stream cp 0 strs lay shs)) in *.
+  assert (Hg0 : len (globals_stream cp g0 strs lay shs) = g0)
     by (unfold g0 at 2; apply len_globals_indep).
   assert (Hpos : g0 + sheets_len shs <= 4294967295).
   { rewrite len_app, Hg0 in Htot. unfold sheets_len. lia. }
   unfold wb_strings.
   set (S := flat_map sheet_stream shs) in *.
   set (st := sst_encode strs lay) in *.
-  assert (Hglob : wb_globals (records (globals_stream g0 strs lay shs ++ S)) [] [] =
+  assert (Hglob : wb_globals (records (globals_stream cp g0 strs lay shs ++ S)) [] [] =
                   Ok (metas g0 shs, map utf16_decode strs)).
   { unfold globals_stream. rewrite <- !app_assoc. fold st.
     assert (HncS : starts_continue S = false) by apply sheets_not_continue.
@@ -1721,11 +1723,24 @@ Proof.
       by (apply frame_not_continue; [lia | len_small]).
     assert (Hnc_sst : starts_continue (frame_sst st ++ frame 10 [] ++ S) = false).
     { unfold frame_sst. rewrite <- app_assoc. apply frame_not_continue; lia. }
+    assert (Hnc_bs : starts_continue (boundsheets g0 shs ++ frame_sst st ++ frame 10 [] ++ S)
+                     = false) by (apply boundsheets_not_continue; assumption).
+    destruct cp as [v|]; cbn [codepage_rec app].
+    2: { rewrite records_plain; [| len_small | exact Hnc_bs]. rewrite wb_globals_bof.
+         rewrite (globals_boundsheets shs g0 _ [] [] Hshs Hpos Hnc_sst). cbn [app].
+         assert (Hd : len (fst st) <= 65535) by (apply N.leb_le; exact Hdata).
+         assert (Hne : frame 10 [] ++ S <> []) by (unfold frame, le16; cbn [app]; discriminate).
+         rewrite (records_step _ _ _ (next_record_sst st (frame 10 [] ++ S) Hd Hconts Hne Hnc_eof)).
+         rewrite wb_globals_sst.
+         rewrite conts_of_opt, pair_eta. unfold st at 1. rewrite (sst_any_split strs lay Hlay).
+         cbn [obind].
+         rewrite records_plain; [| len_small | exact HncS].
+         rewrite wb_globals_eof. reflexivity. }
     rewrite records_plain;
       [| len_small | apply frame_not_continue; [lia | len_small]].
     rewrite wb_globals_bof.
     rewrite records_plain;
-      [| len_small | apply boundsheets_not_continue; assumption].
+      [| len_small | exact Hnc_bs].
     rewrite wb_globals_codepage.
     rewrite (globals_boundsheets shs g0 _ [] [] Hshs Hpos Hnc_sst). cbn [app].
     assert (Hd : len (fst st) <= 65535) by (apply N.leb_le; exact Hdata).
@@ -1736,10 +1751,28 @@ Proof.
     rewrite records_plain; [| len_small | exact HncS].
     rewrite wb_globals_eof. reflexivity. }
   rewrite Hglob. cbn [obind].
-  pose proof (wb_sheets_ok shs (globals_stream g0 strs lay shs) _ (map utf16_decode strs)
+  pose proof (wb_sheets_ok shs (globals_stream cp g0 strs lay shs) _ (map utf16_decode strs)
                 eq_refl Hshs) as Hs.
   rewrite Hg0 in Hs. fold S in Hs. rewrite Hs. reflexivity.
 Qed.
+
+(* The CodePage record of a BIFF8 workbook decides nothing (audit-2 finding XLS-1, repaired):
+   at the level of the globals loop — a CodePage record with ANY body of at least two bytes (any
+   code page, trailing bytes, CONTINUE records) is skipped — and at the level of whole workbooks —
+   two legal workbooks that differ only in the record (its value, or its presence) read
+   identically. *)
+Lemma wb_globals_codepage_any : forall d c rest sh st, 2 <= len d ->
+  wb_globals (Ok (66, d, c) :: rest) sh st = wb_globals rest sh st.
+Proof.
+  intros d c rest sh st H. cbn [wb_globals]. change (66 =? 47) with false.
+  change (66 =? 66) with true. cbv iota.
+  replace (len d <? 2) with false by lia. reflexivity.
+Qed.
+
+Theorem wb_strings_codepage_irrelevant : forall cp cp' strs lay shs,
+  legal_workbook cp strs lay shs = true -> legal_workbook cp' strs lay shs = true ->
+  wb_strings (workbook_stream cp strs lay shs) = wb_strings (workbook_stream cp' strs lay shs).
+Proof. intros. rewrite !wb_strings_ok by assumption. reflexivity. Qed.
 
 (* ------------------------------------------------------------------------------------- *)
 (** * totality: no panic site and no fuel exhaustion is reachable, on any input            *)
@@ -1896,9 +1929,7 @@ Proof.
   destruct r as [[[t d] c]|e| |]; cbn [wb_globals].
   - destruct (t =? 47); [split; discriminate|].
     destruct (t =? 66).
-    { destruct (len d <? 2) eqn:E; [split; discriminate|].
-      destruct (read_u16_total d) as (cp & ->); [lia|]. cbn [obind].
-      destruct (cp =? 1200); [apply IH; assumption | split; discriminate]. }
+    { destruct (len d <? 2) eqn:E; [split; discriminate | apply IH; assumption]. }
     destruct (t =? 2057).
     { destruct (len d <? 2) eqn:E; [split; discriminate|].
       destruct (read_u16_total (take 2 d)) as (v & ->); [rewrite len_take; lia|]. cbn [obind].
@@ -1913,8 +1944,11 @@ Proof.
         try (split; discriminate).
       apply IH; assumption. }
     destruct (t =? 10); [split; discriminate|].
-    match goal with |- context [if ?b then _ else _] => destruct b end;
-      [split; discriminate | apply IH; assumption].
+    destruct (t =? 34); [destruct (len d <? 2); [split; discriminate | apply IH; assumption]|].
+    destruct (t =? 1054); [destruct (len d <? 5); [split; discriminate | apply IH; assumption]|].
+    destruct (t =? 224); [destruct (len d <? 4); [split; discriminate | apply IH; assumption]|].
+    destruct (t =? 23); [destruct (len d <? 2); [split; discriminate | apply IH; assumption]|].
+    destruct (t =? 24); [split; discriminate | apply IH; assumption].
   - split; discriminate.
   - exfalso. apply HP. left. reflexivity.
   - exfalso. apply HF. left. reflexivity.
@@ -1948,6 +1982,8 @@ Proof.
       destruct (read_u16_total (drop 2 d)) as (col & ->); [rewrite len_drop; lia|]. cbn [obind].
       apply IH; assumption. }
     destruct (t =? 10); [split; discriminate|].
+    destruct (t =? 512);
+      [destruct ((len d =? 10) || (len d =? 14)); [apply IH; assumption | split; discriminate]|].
     match goal with |- context [if ?b then _ else _] => destruct b end;
       [split; discriminate | apply IH; assumption].
   - split; discriminate.
@@ -2066,8 +2102,25 @@ Definition ex_sheets : list sheet_spec :=
             CFString 6 2 true [55357; 56832] [];
             CFString 7 1 false [104; 55357; 56832; 233; 105] [(1%nat, true); (1%nat, true); (1%nat, false)]];
    mkSheet false [66] [CSst 5 5 2]].
+(* the same workbook under the code pages real BIFF8 writers declare (1200 Excel, 1252 JExcelApi,
+   932 / 65001 localised writers), one no decoder table knows (437 is not in the `codepage`
+   crate's table; 12345 is no code page at all) and without the record: all legal, all read as the
+   same text (wb_strings_ok); the stream with CodePage 1252 does contain the record *)
+Definition ex_codepages : list (option N) :=
+  [Some 1200; Some 1252; Some 932; Some 65001; Some 437; Some 12345; Some 0; Some 65535; None].
+Lemma example_workbook_codepages :
+  forallb (fun cp => legal_workbook cp ex_strs ex_lay ex_sheets) ex_codepages = true /\
+  Forall (fun cp => wb_strings (workbook_stream cp ex_strs ex_lay ex_sheets)
+                    = Ok (wb_spec ex_strs ex_sheets)) ex_codepages /\
+  firstn 10 (skipn 20 (workbook_stream (Some 1252) ex_strs ex_lay ex_sheets)) =
+    [66; 0; 2; 0; 228; 4; 133; 0; 14; 0].
+Proof.
+  split; [vm_compute; reflexivity|]. split; [|vm_compute; reflexivity].
+  repeat constructor; vm_compute; reflexivity.
+Qed.
+
 Lemma example_workbook :
-  legal_workbook ex_strs ex_lay ex_sheets = true /\
+  legal_workbook (Some 1252) ex_strs ex_lay ex_sheets = true /\
   wb_spec ex_strs ex_sheets =
   [([83; 20013], [(0, 0, [104; 233; 233; 128512; 122]); (2, 0, [65279; 20013; 97]);
                   (4, 1, [104; 105]); (6, 2, [128512]); (7, 1, [104; 128512; 233; 105])]);
